@@ -984,7 +984,8 @@ def _get_unit_data_from_expr(unit_expr, unit_symbol_lut):
     if isinstance(unit_expr, Pow):
         unit_data = _get_unit_data_from_expr(unit_expr.args[0], unit_symbol_lut)
         power = unit_expr.args[1]
-        if isinstance(power, Symbol):
+        if isinstance(power, Symbol) or getattr(power, "free_symbols", None):
+            # an exponent that contains a unit symbol, e.g. "m**(2*s)"
             raise UnitParseError(f"Invalid unit expression '{unit_expr}'.")
         conv = float(unit_data[0] ** power)
         unit = unit_data[1] ** power
